@@ -35,8 +35,8 @@ base58_encodings = [
     (b'p2esk', 88, tb([9, 48, 57, 115, 171]), 56, 'p256_encrypted_secret_key'),
     (b'sppk', 55, tb([3, 254, 226, 86]), 33, 'secp256k1 public key'),
     (b'p2pk', 55, tb([3, 178, 139, 127]), 33, 'p256 public key'),
-    (b'SSp', 53, tb([38, 248, 136]), 33, 'secp256k1 scalar'),
-    (b'GSp', 53, tb([5, 92, 0]), 33, 'secp256k1 element'),
+    (b'SSp', 53, tb([38, 248, 136]), 32, 'secp256k1 scalar'),
+    (b'GSp', 54, tb([5, 92, 0]), 33, 'secp256k1 element'),
     (b'edsk', 98, tb([43, 246, 78, 7]), 64, 'ed25519 secret key'),
     (b'edsig', 99, tb([9, 245, 205, 134, 18]), 64, 'ed25519 signature'),
     (b'spsig', 99, tb([13, 115, 101, 19, 63]), 64, 'secp256k1 signature'),
@@ -113,7 +113,7 @@ def _validate(v: Union[str, bytes], prefixes: list):
     if isinstance(v, str):
         v = v.encode()
     v = scrub_input(v)
-    if any(map(v.startswith, prefixes)):
+    if any(len(v) == e[1] and v.startswith(e[0]) for e in base58_encodings if e[0] in prefixes):
         base58_decode(v)
     else:
         raise ValueError('Unknown prefix.')
